@@ -133,7 +133,7 @@ CHECKS = {
  "C18": dict(
    text="Lean 4 theorems (List.Perm): for row-permuted reference and test batches the HDM per-feature min/max, histogram count vectors, recorded distance, and "
         "(detect_batch != 1, same oracle inputs) epsilon / beta / decision traces over whole histories are equal; np.unique pool and membership vectors, NNPS "
-        "distance and NNDVI decision traces are equal; (kd-tree part in progress). On the real classes: every batch of a sequence permuted (reversal, rotation, "
+        "distance and NNDVI decision traces are equal; kd-tree build / fill / divergence and KdqTreeBatch decision traces are equal (linear order; the fill and divergence parts law-free). On the real classes: every batch of a sequence permuted (reversal, rotation, "
         "random), distances / per-node counts / decisions compared under the same seed schedule, incl. large-batch histories.",
    note="Theorems need a lawful linear order (Float is not one: the twin runs cover it); equality of the positional bootstrap epsilon_0 under permutation is a "
         "hypothesis (detect_batch=2 decisions are outside the property).",
